@@ -314,8 +314,10 @@ def _recursion_shape(lib_texts, text):
     for nm, v in calls.items():
         if nm not in cyc:
             continue
-        into = [ctx for c, ctx in v if c in cyc or c == "*"]
+        into = [(c, ctx) for c, ctx in v if c in cyc or c == "*"]
         worst = max(worst, len(into))
+        # different argument positions OR different callees in one position: the stack paths differ from branch to
+        # branch; only the SAME callee repeated in the SAME position gives one repeating stack pattern
         positions = max(positions, len(set(into)))
         if len(into) >= 2 and any(c == "*" for c, _ in v):
             positions = max(positions, 2)      # the callee varies with the argument: the stack path need not repeat
